@@ -22,7 +22,7 @@ META = dict(
     ),
     outside=["SMILES rewriting proper (RDKit atom ordering, ring-closure digits): represented by node renumbering and "
              "insertion order only", "explicit-hydrogen templates, wildcards, partial=True"],
-    stubs=["NoCanon canonicaliser passed through the public canonicaliser= parameter"],
+    stubs=["NoCanon canonicaliser passed through the public canonicaliser= parameter (identity, one fresh signature per object); the history harness uses the real GraphCanonicaliser"],
     assumptions=["results are compared as sets up to isomorphism of the glued ITS (typesGH and order pairs)",
                  "the component-aware strategy is compared with strict_cc_count as the reactor passes it (default True)"],
     rule="one evaluation = one symbolic path covering the original and the renumbered application; non-trivial = at least "
@@ -79,7 +79,8 @@ def h_numbering(E, k, hn, hedges, invert, cs=(0,), hmax_t=1, hmax_s=1, omax_t=2,
     # template renumbered
     tn = list(rc.nodes)
     sigma = [int(x) for x in E.perm("sigma", len(tn))]
-    mp = {v: 31 + sigma[i] for i, v in enumerate(tn)}
+    base = sorted(tn)
+    mp = {v: base[sigma[i]] for i, v in enumerate(tn)}  # the same set of map numbers, permuted
     rc2 = relabel(rc, mp, order=[v for _, v in sorted(zip(sigma, tn))])
     for v in rc2.nodes:
         rc2.nodes[v]["atom_map"] = v
@@ -92,14 +93,44 @@ def h_numbering(E, k, hn, hedges, invert, cs=(0,), hmax_t=1, hmax_s=1, omax_t=2,
     tau = [int(x) for x in E.perm("tau", len(hv))] if tau_sym else [(i + 1) % len(hv) for i in range(len(hv))]
     tmap = {v: 51 + tau[i] for i, v in enumerate(hv)}
     host2 = relabel(host, tmap, order=list(reversed(hv)))
-    r3 = reactor(host2, rc, "all", invert).its_list
-    check_sets_equal(E, res["all"], r3, "rewriting-the-substrate-changes-the-set-of-reactions",
-                     dict(info, tau=tau, before=len(res["all"]), after=len(r3)), node_map=tmap)
+    for s in ("all", "comp"):
+        r3 = reactor(host2, rc, s, invert).its_list
+        check_sets_equal(E, res[s], r3, "rewriting-the-substrate-changes-the-set-of-reactions",
+                         dict(info, strategy=s, tau=tau, before=len(res[s]), after=len(r3)), node_map=tmap)
     E.note(nontrivial=len(res["all"]) >= 2 or (len(res["all"]) >= 1 and sigma != sorted(sigma)))
     E.observe((len(res["all"]), len(res["comp"]), len(res["bt"])))
 
 
-HARNESSES = {"numbering": h_numbering}
+def h_history(E, k, hn, hedges, invert):
+    """the same with the library's own canonicaliser (template labels are realised by the signature), a template and its
+    permuted twin applied one after the other in one process: the second answer must not depend on the first call."""
+    from synkit.Graph.ITS.its_construction import ITSConstruction
+    from synkit.Graph.ITS.its_decompose import get_rc
+
+    Gt, Ht, ts = sym_reaction(E, "t", k, hs=(0,), cs=(0,), orders=(0, 1), ids=[11 + i for i in range(k)], els=("C",))
+    rc = get_rc(ITSConstruction.ITSGraph(Gt, Ht))
+    if rc.number_of_nodes() < 2:
+        E.note(nontrivial=False)
+        return
+    host = sym_substrate(E, "s", hn, hedges, hs=(0, 1), cs=(0,), els=("C",))
+    tn = list(rc.nodes)
+    sigma = [int(x) for x in E.perm("sigma", len(tn))]
+    base = sorted(tn)
+    rc2 = relabel(rc, {v: base[sigma[i]] for i, v in enumerate(tn)}, order=[v for _, v in sorted(zip(sigma, tn))])
+    for v in rc2.nodes:
+        rc2.nodes[v]["atom_map"] = v
+    info = dict(template_edges=sorted(map(sorted, rc.edges)), sigma=sigma, host=hedges, invert=invert)
+    first = reactor(host, rc, "all", invert, real_canon=True).its_list
+    R2 = reactor(host, rc2, "all", invert, real_canon=True)
+    second = R2.its_list
+    check_sets_equal(E, second, glue_all_raw(R2), "answer-depends-on-an-earlier-call-with-a-renumbered-template",
+                     dict(info, n_first=len(first), n_second=len(second)))
+    check_sets_equal(E, first, second, "renumbering-the-template-changes-the-set-of-reactions", dict(info, real_canon=True))
+    E.note(nontrivial=len(first) >= 2 and sigma != sorted(sigma))
+    E.observe((len(first), len(second)))
+
+
+HARNESSES = {"numbering": h_numbering, "history": h_history}
 
 
 def shards(tier, seed):
@@ -112,8 +143,12 @@ def shards(tier, seed):
         if hn == 3:
             q = tier == "quick"
             sh.append(dict(h="numbering", params=dict(k=3, hn=hn, hedges=he, invert=(len(he) % 2 == 1), cs=[0],
-                                                      hmax_t=0 if q else 1, hmax_s=0 if q else 1, omax_t=1 if q else 2,
+                                                      hmax_t=0 if q else 1, hmax_s=(1 if len(he) <= 1 else 0) if q else 1, omax_t=1 if q else 2,
                                                       els=["C"] if q else ["C", "O"], tau_sym=not q)))
+    for hn, he in hosts:
+        if hn == 3:
+            sh.append(dict(h="history", params=dict(k=3, hn=hn, hedges=he, invert=False)))
+            sh.append(dict(h="history", params=dict(k=3, hn=hn, hedges=he, invert=True)))
     if tier == "thorough":
         for hn, he in hosts:
             if hn == 3:
